@@ -25,6 +25,8 @@ git checkout -q -- . ; git clean -fdq -e _mutation -e target
 unset CARGO_TARGET_DIR
 echo "== run checks against /repo with the change"
 cd /verif
+# evidence files belong to runs on the unchanged tree: keep the current ones and put them back afterwards
+rm -rf /var/tmp/evidence.keep.$$; cp -a /verif/evidence /var/tmp/evidence.keep.$$
 git -C /repo apply $M/patch.diff || { echo "PATCH DOES NOT APPLY TO /repo"; exit 2; }
 mkdir -p /verif/seeded/$ID
 for P in $PROP $OTHERS; do
@@ -42,4 +44,5 @@ cp $M/patch.diff /verif/seeded/$ID/patch.diff
 [ -f $M/demo.diff ] && cp $M/demo.diff /verif/seeded/$ID/demo.diff
 [ -f $M/demo.sh ] && cp $M/demo.sh /verif/seeded/$ID/demo.sh
 cp $M/meta.json /verif/seeded/$ID/meta.agent.json 2>/dev/null
+rm -rf /verif/evidence; mv /var/tmp/evidence.keep.$$ /verif/evidence
 echo "== done"
